@@ -61,15 +61,81 @@ func (x *g) genStream(m *spec.Method) {
 	case "server":
 		m.Result = x.genStreamMsg(true, "stream-result-")
 	case "client":
-		m.StreamP = x.genStreamMsg(false, "stream-payload-")
+		m.StreamP = x.genStreamPayload()
 		if x.chance(3, 4) {
 			m.Result = x.genStreamMsg(true, "stream-final-result-")
 		} else {
 			x.s.AddFeature("stream-final-result-none")
 		}
 	case "bidi":
-		m.StreamP = x.genStreamMsg(false, "stream-payload-")
+		m.StreamP = x.genStreamPayload()
 		m.Result = x.genStreamMsg(true, "stream-result-")
+	}
+}
+
+// genStreamPayload draws the StreamingPayload type. Runtime designs must compile on the tree under test,
+// so they stay clear of the trigger class of findings/C01-stream-body-http-type (a streaming payload that
+// reaches a primitive alias type; unions are outside the runtime envelope anyway).
+func (x *g) genStreamPayload() *spec.Attr {
+	a := x.genStreamMsg(false, "stream-payload-")
+	for i := 0; x.o.Runtime && x.reachesAlias(a.Type, map[string]bool{}) && i < 8; i++ {
+		a = x.genStreamMsg(false, "stream-payload-")
+	}
+	if x.o.Runtime && x.reachesAlias(a.Type, map[string]bool{}) {
+		a = &spec.Attr{Type: &spec.Type{Kind: spec.String}}
+		x.s.AddFeature("stream-payload-primitive", "stream-payload-primitive-string")
+	}
+	return a
+}
+
+// reachesAlias reports whether t reaches an alias user type through attributes, elements, keys and user types.
+func (x *g) reachesAlias(t *spec.Type, seen map[string]bool) bool {
+	if t == nil {
+		return false
+	}
+	switch t.Kind {
+	case spec.Ref:
+		if seen[t.Ref] {
+			return false
+		}
+		seen[t.Ref] = true
+		ut := x.s.Type(t.Ref)
+		if ut == nil {
+			return false
+		}
+		return ut.Kind == "alias" || x.reachesAlias(ut.Def, seen)
+	case spec.Array, spec.Map:
+		if t.Key != nil && x.reachesAlias(t.Key.Type, seen) {
+			return true
+		}
+		return t.Elem != nil && x.reachesAlias(t.Elem.Type, seen)
+	case spec.Object, spec.Union:
+		for _, a := range t.Attrs {
+			if x.reachesAlias(a.Type, seen) {
+				return true
+			}
+		}
+	}
+	return false
+}
+
+// stripStringLengths removes string length validations from a message type that is not a user type
+// (findings/C01-stream-validation-utf8-import: the websocket files lack the unicode/utf8 import).
+func stripStringLengths(a *spec.Attr) {
+	if a == nil || a.Type == nil {
+		return
+	}
+	switch a.Type.Kind {
+	case spec.String:
+		if a.Val != nil {
+			a.Val.MinLen, a.Val.MaxLen = nil, nil
+			if a.Val.Empty() {
+				a.Val = nil
+			}
+		}
+	case spec.Array, spec.Map:
+		stripStringLengths(a.Type.Key)
+		stripStringLengths(a.Type.Elem)
 	}
 }
 
@@ -178,6 +244,9 @@ func (x *g) genStreamMsg(result bool, tag string) *spec.Attr {
 	default:
 		a = &spec.Attr{Type: &spec.Type{Kind: spec.Map, Key: &spec.Attr{Type: &spec.Type{Kind: spec.String}}, Elem: x.genElem(2, "")}}
 		x.s.AddFeature(tag + "map")
+	}
+	if x.o.Runtime {
+		stripStringLengths(a)
 	}
 	return a
 }
